@@ -312,6 +312,18 @@ static void do_tf(const kv& m) {
     for (auto& t : split(get(m, "args"), ',')) line += " " + unhexstr(t);
     FILE* old = stdout;
     char* buf = nullptr; size_t len = 0;
+    if (m.count("pre")) {
+        // pre=<name>+<arg>+<arg>;<name>+... : earlier tf commands of the same session (same process); their output is discarded - the result
+        // of a transform must not depend on what was computed before it
+        for (auto& grp : split(get(m, "pre"), ';')) {
+            std::string pl;
+            for (auto& t : split(grp, '+')) pl += (pl.empty() ? "" : " ") + unhexstr(t);
+            char* b0 = nullptr; size_t l0 = 0;
+            stdout = open_memstream(&b0, &l0);
+            try { fn_tf(pl.c_str()); } catch (...) {}
+            fflush(stdout); fclose(stdout); stdout = old; free(b0);
+        }
+    }
     stdout = open_memstream(&buf, &len);
     int rv = fn_tf(line.c_str());
     fflush(stdout); fclose(stdout); stdout = old;
